@@ -217,10 +217,26 @@ func buildFromSnap(s *SnapGenome) *genetics.Genome {
 		cn.ActivationType = neatmath.NodeActivationType(sm.Act)
 		cn.Trait = traitById[sm.TraitId]
 		for j, id := range sm.Ins {
-			cn.Incoming = append(cn.Incoming, network.NewLink(bitsf(sm.InW[j]), nodeById[id], cn, false))
+			rec, tr := j < len(sm.InRec) && sm.InRec[j], (*neat.Trait)(nil)
+			if j < len(sm.InTr) {
+				tr = traitById[sm.InTr[j]]
+			}
+			if tr != nil {
+				cn.Incoming = append(cn.Incoming, network.NewLinkWithTrait(tr, bitsf(sm.InW[j]), nodeById[id], cn, rec))
+			} else {
+				cn.Incoming = append(cn.Incoming, network.NewLink(bitsf(sm.InW[j]), nodeById[id], cn, rec))
+			}
 		}
 		for j, id := range sm.Outs {
-			cn.Outgoing = append(cn.Outgoing, network.NewLink(bitsf(sm.OutW[j]), cn, nodeById[id], false))
+			rec, tr := j < len(sm.OutRec) && sm.OutRec[j], (*neat.Trait)(nil)
+			if j < len(sm.OutTr) {
+				tr = traitById[sm.OutTr[j]]
+			}
+			if tr != nil {
+				cn.Outgoing = append(cn.Outgoing, network.NewLinkWithTrait(tr, bitsf(sm.OutW[j]), cn, nodeById[id], rec))
+			} else {
+				cn.Outgoing = append(cn.Outgoing, network.NewLink(bitsf(sm.OutW[j]), cn, nodeById[id], rec))
+			}
 		}
 		modules[i] = genetics.NewMIMOGene(cn, sm.Innov, bitsf(sm.Mut), sm.En)
 	}
